@@ -18,8 +18,13 @@ CHECK = {
             {"name": "busy", "run": "^TestC10_EngineBusyCancel$", "checks": {"quick": 20, "thorough": 100}, "shards": {"quick": 3, "thorough": 8}},
             # exported Lookup / ContentLookup of a real instance over the simulated network against scripted discv5 peers (package p_proto)
             {"name": "net", "package": "p_proto", "run": "^TestC10_Net$", "checks": {"quick": 25, "thorough": 50}, "shards": {"quick": 6, "thorough": 16}, "rounds": {"quick": 1, "thorough": 4}},
+            # Stop while the table's own refresh lookup (and a caller's lookup) has queries outstanding at late / silent peers: everything must finish
+            {"name": "stoprefresh", "package": "p_proto", "run": "^TestC10_StopDuringRefresh$", "checks": {"quick": 12, "thorough": 40}, "shards": {"quick": 4, "thorough": 16}, "shrink_exec": 6},
         ],
-        "rule": "[real-instance run] rapid draws 1..24 scripted discv5 peers {FINDNODES answer kind: honest at the asked distances / plus the asker and itself / duplicates / wrong "
+        "rule": "[stop-during-refresh run] 1..8 scripted peers seeded into the table, each answering FINDNODES after 0..250 ms or never; a table refresh is requested, optionally a caller's "
+                "Lookup is started, and after 0..200 ms the protocol is stopped: Stop, the refresh lookup and the caller's lookup must all finish (20 s bound; a query is outstanding for 300 ms at most); "
+                "non-trivial = the refresh was running and a peer was holding a query at the moment of Stop. "
+                "[real-instance run] rapid draws 1..24 scripted discv5 peers {FINDNODES answer kind: honest at the asked distances / plus the asker and itself / duplicates / wrong "
                 "distances / undecodable / empty / silent; FINDCONTENT answer kind: ENRs / content / empty content / connection id nobody serves / garbage / empty / silent; known peers; delay}, "
                 "0..5 table seeds, a target, node or content lookup; judged from the peers' request logs: each peer asked at most once, at most 3 requests in flight, result <= 16 distinct supplied "
                 "nodes sorted by distance without the local node and with no closer seed omitted; content result is something a queried peer supplied, not-found iff nobody supplied. "
@@ -37,6 +42,6 @@ CHECK = {
             "query functions never return nil nodes (every production query function filters them)",
             "at engine level the asker's own record is an ordinary node of the result (the production worker removes it before the engine sees it; that is checked in the real-instance run)",
         ],
-        "required_classes": {"quick": ["content-found", "content-not-found", "node-lookup-queried", "late-replies-after-lookup-ended", "cancel-while-scanning-a-long-reply", "queries>=4-with-order-choice", "adversarial-answer-processed", "cancel-with-queries-in-flight",
+        "required_classes": {"quick": ["stop-with-refresh-queries-outstanding", "content-found", "content-not-found", "node-lookup-queried", "late-replies-after-lookup-ended", "cancel-while-scanning-a-long-reply", "queries>=4-with-order-choice", "adversarial-answer-processed", "cancel-with-queries-in-flight",
                                        "cancel-and-reply-in-the-same-instant", "empty-table-start", "seen>16", "in-flight-reached-3", "peers:61-200", "peers:0"]},
     }
